@@ -49,6 +49,7 @@ def _class_attrs(prog, cname):
 
 
 def check(prog, run):
+    check_type_map_closure(prog, run, "T11")
     check_introspection_query_depth(prog, run, "T10")
     m = prog.module(INTRO)
 
@@ -520,3 +521,63 @@ def check_introspection_query_depth(prog, run, rule_id):
         if has_desc != description:
             run.report(r, "%s:introspection_query:description(%s)" % (IQ, description), f.where(),
                        "introspection_query(description=%s) %s `description`" % (description, "selects" if has_desc else "does not select"))
+
+
+def check_type_map_closure(prog, run, rule_id):
+    """Every type a schema's members mention is a type of the schema."""
+    from .. import boolx, dispatch
+    SCH = "py_gql.schema.schema"
+    r = run.rule(rule_id, "_build_type_map, per kind of registered type (path form, loops read as one iteration): a union contributes its "
+                          "members, an object type its interfaces, an object AND an interface type the type of every field and of every field "
+                          "argument, an input object the type of every input field, and all of them go through the recursive call - a type "
+                          "referenced only from an interface field's argument is reported by __schema.types / __type like any other", 7)
+    f = prog.get_func(SCH, "_build_type_map")
+    run.looked_at(f)
+    loops = [n for n in f.node.body if isinstance(n, ast.For)]
+    if not loops:
+        raise AnalysisError("C15.%s: the loop over types of _build_type_map was not found" % rule_id)
+    lp = loops[0]
+    tested = {}
+    for n in ast.walk(lp):
+        if isinstance(n, ast.Call) and isinstance(n.func, ast.Name) and n.func.id == "isinstance" and len(n.args) == 2 and isinstance(n.args[0], ast.Name):
+            tested[n.args[0].id] = tested.get(n.args[0].id, 0) + 1
+    if not tested:
+        raise AnalysisError("C15.%s: no class test in _build_type_map" % rule_id)
+    var = max(tested, key=tested.get)
+    hier = dispatch.Hierarchy(prog)
+    body = ast.fix_missing_locations(boolx.body_function(boolx.at_least_once(lp.body)))
+    WANT = {
+        "UnionType": [("types", None)],
+        "ObjectType": [("interfaces", None), ("fields", "type"), ("fields", "arguments")],
+        "InterfaceType": [("fields", "type"), ("fields", "arguments")],
+        "InputObjectType": [("fields", "type")],
+    }
+    for kind, wants in WANT.items():
+        def extra(t):
+            if t.endswith(" in type_map") or " in " in t and t.split(" in ")[-1].startswith("type_map"):
+                return False          # first time this name is seen
+            if t.endswith("is None"):
+                return False
+            return None
+        try:
+            ev, exits = boolx.walk_under(body, dispatch.decide_for(hier, var, kind, extra))
+        except ValueError as e:
+            raise AnalysisError("C15.%s: %s" % (rule_id, e))
+        rec_ok = False
+        reads = set()
+        for k_, st_, env in exits:
+            if k_ == "raise":
+                continue
+            rec_ok = rec_ok or any(isinstance(c.func, ast.Name) and c.func.id == f.name for c in env.get(boolx.CALLS, ()))
+        for _id, (node, _env) in ev.items():
+            if isinstance(node, ast.Attribute):
+                reads.add(node.attr)
+        for member, sub in wants:
+            need = sub or member
+            ok = member in reads and need in reads and rec_ok
+            r.instance("%s: %s%s collected: %s" % (kind, member, "." + sub if sub else "", ok))
+            if not ok:
+                run.report(r, "%s:_build_type_map:not-collected(%s.%s)" % (SCH, kind, member + ("." + sub if sub else "")), f.where(lp),
+                           "for a %s, _build_type_map does not collect %s (attribute reads on that execution: %s; recursive call: %s): a type "
+                           "referenced only there is missing from schema.types and from introspection" % (
+                               kind, "the types of its %s' %s" % (member, sub) if sub else "its %s" % member, sorted(reads & {"types", "interfaces", "fields", "arguments", "type"}), rec_ok))
